@@ -67,7 +67,8 @@ def _run_one(args):
         if expect == "ANALYSIS-ERROR":
             return {"name": name, "status": "ok", "kind": "breaker", "reported": "ANALYSIS-ERROR"}
         return {"name": name, "status": "failed", "kind": "breaker", "why": f"analysis error instead of a report: {err}"}
-    hits = [i for i in broken if expect in i.rule]
+    # match against the rule's own id (the part after "Cxx."), not the property prefix
+    hits = [i for i in broken if expect in i.rule.split(".", 1)[-1]]
     if hits:
         return {"name": name, "status": "ok", "kind": "breaker", "reported": hits[0].rule, "message": hits[0].message[:200]}
     return {"name": name, "status": "failed", "kind": "breaker",
